@@ -426,10 +426,16 @@ bool Process::join(uint32& exitCode)
     errno = EINVAL;
     return false;
   }
+  if(fdStdInWrite)
+  { // nothing more can be written while we wait: let a child that reads its input to the end see the end
+    ::close(fdStdInWrite);
+    fdStdInWrite = 0;
+  }
   int status;
   if(waitpid(pid, &status, 0) != (pid_t)pid)
     return false;
   exitCode = WEXITSTATUS(status);
+  // the read ends stay open until the child is gone: it may still be writing
   if(fdStdOutRead)
   {
     ::close(fdStdOutRead);
@@ -439,11 +445,6 @@ bool Process::join(uint32& exitCode)
   {
     ::close(fdStdErrRead);
     fdStdErrRead = 0;
-  }
-  if(fdStdInWrite)
-  {
-    ::close(fdStdInWrite);
-    fdStdInWrite = 0;
   }
   pid = 0;
   return true;
